@@ -3,6 +3,7 @@
 (*                                                                                           *)
 (* Written from the Yellow Paper and the EIPs (150 63/64 rule, 161, 1153 transient storage,  *)
 (* 1559, 2200/2929/3529 storage gas and refunds, 2930 access lists, 3541, 3651 warm          *)
+(* coinbase, 7702 delegated code in calls (Prague; not the authorisation list itself),        *)
 (* coinbase, 3855 PUSH0, 3860 initcode, 6780 SELFDESTRUCT, 7623 calldata floor (Prague),     *)
 (* 7825 transaction gas cap (Osaka), 7939 CLZ (Osaka)), for the rule sets Cancun, Prague and *)
 (* Osaka - not from core/vm.                                                                 *)
@@ -62,6 +63,19 @@ IsPrecompile(a, fork) == \/ a \in 1..10
                          \/ (fork # "cancun" /\ a \in 11..17)
                          \/ (fork = "osaka" /\ a = 256)
 WarmA(w, a, fork) == a \in w.warmA \/ IsPrecompile(a, fork)
+
+(* EIP-7702 (Prague): an account whose code is 0xef0100 ++ address delegates to that address:  *)
+(* calls execute the target's code (one level only), the target's access is charged.          *)
+IsDeleg(code, fork) == fork # "cancun" /\ Len(code) = 23 /\ code[1] = 239 /\ code[2] = 1 /\ code[3] = 0
+(* the 20-byte target as a value; BIGT if it is not below 2^30 (not modelled)                  *)
+BIGT == -8
+DelegTarget(code) ==
+  IF (\E i \in 4..19 : code[i] # 0) \/ code[20] >= 64 THEN BIGT
+  ELSE code[23] + 256 * code[22] + 65536 * code[21] + 16777216 * code[20]
+(* the code executed by a call to a *)
+Resolved(w, a, fork) ==
+  LET c == Acct(w, a).code IN
+  IF IsDeleg(c, fork) THEN Acct(w, DelegTarget(c)).code ELSE c
 
 (* ------------------------------- code -------------------------------------------------- *)
 OpAt(code, pc) == IF pc < Len(code) THEN code[pc + 1] ELSE 0
@@ -376,9 +390,13 @@ OpResult(m, f, ob) ==
                       ro    == IF hasV THEN St(s, 6) ELSE St(s, 5)
                       rl    == IF hasV THEN St(s, 7) ELSE St(s, 6)
                       need  == Max(NeedW(ao, al), NeedW(ro, rl))
+                      tcode == Acct(w, b).code
+                      deleg == IsDeleg(tcode, fork)
+                      tgt   == DelegTarget(tcode)
                       base  == AddCost(MemExp(f.mem, need),
                                        AccessCost(w, b, fork) + (IF value # 0 THEN 9000 ELSE 0)
-                                       + (IF op = 241 /\ value # 0 /\ Dead(w, b) THEN 25000 ELSE 0))
+                                       + (IF op = 241 /\ value # 0 /\ Dead(w, b) THEN 25000 ELSE 0)
+                                       + (IF deleg THEN AccessCost(Warm(w, b), tgt, fork) ELSE 0))
                       avail == f.gas - base
                       cap   == avail - avail \div 64
                       fwd   == IF Known(a) THEN Min(a, cap) ELSE cap
@@ -393,9 +411,11 @@ OpResult(m, f, ob) ==
                                         f.static \/ op = 250,
                                         Slice(mem2, ao, al), al, ro, rl, f.depth + 1)
                   IN IF f.static /\ op = 241 /\ value # 0 THEN Faulted(f, w)
+                     ELSE IF deleg /\ tgt = BIGT THEN [Faulted(f, w) EXCEPT !.chk = FALSE]       \* delegation to a large address: not modelled
                      ELSE IF base = INF \/ base > f.gas THEN [Faulted(f, w) EXCEPT !.cost = base]
                      ELSE [Base(f, w) EXCEPT !.stack = PopN(s, ar[1]), !.cost = base + fwd, !.fwd = 0, !.mem = mem2,
-                                             !.w = Warm(w, b), !.hasChild = TRUE, !.child = child]
+                                             !.w = IF deleg THEN Warm(Warm(w, b), tgt) ELSE Warm(w, b),
+                                             !.hasChild = TRUE, !.child = child]
     (* --- CREATE: value, off, len ; CREATE2: value, off, len, salt --- *)
     [] op \in {240, 245} ->
                   LET need == NeedW(b, c)
@@ -445,7 +465,7 @@ Enter(m, ob) ==
          tooDeep == f.depth > DepthLimit
          poor   == xfer /\ f.value # 0 /\ (~Known(f.value) \/ Bal(w, payer) < f.value)
          w1     == IF f.kind = "CALL" /\ f.value # 0 THEN AddBal(AddBal(w, payer, -f.value), f.self, f.value) ELSE w
-         code   == Acct(w, f.codeAddr).code
+         code   == Resolved(w, f.codeAddr, fork)
          f1     == [f EXCEPT !.snap = w, !.code = code, !.jd = JumpDests(code), !.st = "run"]
      IN IF tooDeep \/ poor THEN SetTop(m, Finish([f EXCEPT !.snap = w], FALSE, FALSE, f.gas, << >>, 0))
         ELSE IF IsPrecompile(f.codeAddr, fork) THEN [SetTop(m, [f1 EXCEPT !.st = "precompile"]) EXCEPT !.w = w1]
@@ -526,7 +546,7 @@ Invalid(tx, w) ==
   LET s == Acct(w, tx.from) IN
   CASE ~tx.skipNonce /\ s.nonce # tx.nonce -> "nonce"
     [] tx.fork = "osaka" /\ tx.gas > 16777216 -> "gascap"
-    [] Len(s.code) # 0 -> "eoa"
+    [] Len(s.code) # 0 /\ ~IsDeleg(s.code, tx.fork) -> "eoa"
     [] tx.feeCap < tx.tip -> "tip"
     [] tx.feeCap < tx.baseFee -> "feecap"
     [] tx.isCreate /\ Len(tx.data) > 49152 -> "initsize"
@@ -555,7 +575,9 @@ TxStart(tx, accts) ==
       price == tx.price
       w1  == SetAcct(w0, tx.from, [Acct(w0, tx.from) EXCEPT !.bal = @ - tx.gas * price,
                                                               !.nonce = IF tx.isCreate THEN @ ELSE @ + 1])
+      toCode == IF tx.isCreate THEN << >> ELSE Acct(w0, tx.to).code
       w2  == [w1 EXCEPT !.warmA = {tx.from, tx.coinbase} \cup (IF tx.isCreate THEN {} ELSE {tx.to})
+                                    \cup (IF IsDeleg(toCode, tx.fork) THEN {DelegTarget(toCode)} ELSE {})
                                     \cup {tx.alAddrs[i] : i \in DOMAIN tx.alAddrs},
                         !.warmS = {<<tx.alKeys[i][1], tx.alKeys[i][2]>> : i \in DOMAIN tx.alKeys}]
       gas == tx.gas - Intrinsic(tx)
